@@ -7,6 +7,7 @@ open Storrent Storrent.Privacy
 structure DS where
   fx : Fixed := ⟨false, true⟩
   conf : Conf := ⟨false, false, .none⟩
+  defaults : Conf := ⟨false, false, .none⟩
   live : Bool := false
 
 def ports : Ports := ⟨6883, 6882, 6881⟩
@@ -58,8 +59,17 @@ def step (s : DS) (ws : List String) : DS × String :=
   match ws with
   | "new" :: rest =>
     match kb rest "p", confOf rest "gt" "gw" "gd" with
-    | some p, some c => ({ fx := ⟨p, true⟩, conf := c, live := true }, confStr c)
+    | some p, some c => ({ fx := ⟨p, true⟩, conf := c, defaults := c, live := true }, confStr c)
     | _, _ => (s, "bad-op")
+  | "route" :: rest =>
+    -- proxy-string classes: only the empty setting goes direct
+    match kv rest "proxy" with
+    | some cls =>
+      let p : ProxySetting :=
+        if cls == "none" then .empty
+        else if cls == "reachable" || cls.startsWith "unreachable" then .wellFormed else .malformed
+      (s, s!"direct={b01 (directReachable Gen.proxyRoutes p)}")
+    | none => (s, "bad-op")
   | "realtick" :: rest =>
     match kb rest "p", confOf rest "t" "w" "d" with
     | some p, some c =>
@@ -74,6 +84,12 @@ def step (s : DS) (ws : List String) : DS × String :=
     if !s.live then (s, "bad-op") else
     match op with
     | "add" => let (c, os) := run .add; ({ s with conf := c }, dhtStr os)
+    -- AddTorrent for a hash that is running: refused before anything else happens
+    | "readd" => (s, "dht -")
+    -- … for a hash that has just been unlisted: a new torrent with the global defaults
+    | "readd-deleted" =>
+      let (_, os) := Privacy.step Gen.privacyGates ports s.fx s.defaults .add
+      (s, dhtStr os)
     | "announce" =>
       match kb rest "v6" with
       | some v6 => let (c, os) := run (.announce v6); ({ s with conf := c }, dhtStr os)
